@@ -1,1 +1,325 @@
-// harness
+// Harnesses for src/spec.rs: end-of-central-directory records (C02, C03, C05, C08).
+#[allow(unused_imports)]
+use crate::verif_kit::*;
+
+/// C02 end-of-central-directory record serialisation (APPNOTE 4.3.16): every field value, 2-byte
+/// comment: fields at their offsets, comment length field == true length, comment verbatim.
+// @h prop=C02 tier=quick t=600 mem=6
+#[kani::proof]
+#[kani::unwind(6)]
+fn c02_eocd_write_layout() {
+    let cm: [u8; 2] = kani::any();
+    let e = CentralDirectoryEnd {
+        disk_number: kani::any(),
+        disk_with_central_directory: kani::any(),
+        number_of_files_on_this_disk: kani::any(),
+        number_of_files: kani::any(),
+        central_directory_size: kani::any(),
+        central_directory_offset: kani::any(),
+        zip_file_comment: cm.to_vec(),
+    };
+    let mut sink = Sink::<32>::new();
+    match e.write(&mut sink) {
+        Ok(()) => {}
+        Err(x) => {
+            core::mem::forget(x);
+            assert!(false, "EOCD write failed");
+        }
+    }
+    let b = &sink.buf;
+    assert_eq!(sink.end, 24);
+    assert_eq!(le32(b, 0), SIG_EOCD);
+    assert_eq!(le16(b, 4), e.disk_number);
+    assert_eq!(le16(b, 6), e.disk_with_central_directory);
+    assert_eq!(le16(b, 8), e.number_of_files_on_this_disk);
+    assert_eq!(le16(b, 10), e.number_of_files);
+    assert_eq!(le32(b, 12), e.central_directory_size);
+    assert_eq!(le32(b, 16), e.central_directory_offset);
+    assert_eq!(le16(b, 20), 2);
+    assert_eq!(b[22], cm[0]);
+    assert_eq!(b[23], cm[1]);
+    kani::cover!(e.number_of_files == 0xffff);
+    core::mem::forget(e);
+}
+
+/// C02/C08 ZIP64 end record + locator serialisation (APPNOTE 4.3.14/4.3.15): every field value.
+// @h prop=C02,C08 tier=quick t=600 mem=6
+#[kani::proof]
+#[kani::unwind(10)]
+fn c08_eocd64_and_locator_write_layout() {
+    let e = Zip64CentralDirectoryEnd {
+        version_made_by: kani::any(),
+        version_needed_to_extract: kani::any(),
+        disk_number: kani::any(),
+        disk_with_central_directory: kani::any(),
+        number_of_files_on_this_disk: kani::any(),
+        number_of_files: kani::any(),
+        central_directory_size: kani::any(),
+        central_directory_offset: kani::any(),
+    };
+    let l = Zip64CentralDirectoryEndLocator {
+        disk_with_central_directory: kani::any(),
+        end_of_central_directory_offset: kani::any(),
+        number_of_disks: kani::any(),
+    };
+    let mut sink = Sink::<80>::new();
+    match e.write(&mut sink) {
+        Ok(()) => {}
+        Err(x) => {
+            core::mem::forget(x);
+            assert!(false);
+        }
+    }
+    match l.write(&mut sink) {
+        Ok(()) => {}
+        Err(x) => {
+            core::mem::forget(x);
+            assert!(false);
+        }
+    }
+    let b = &sink.buf;
+    assert_eq!(sink.end, 76);
+    assert_eq!(le32(b, 0), SIG_EOCD64);
+    assert_eq!(le64(b, 4), 44); // size of the remaining record (APPNOTE: total - 12)
+    assert_eq!(le16(b, 12), e.version_made_by);
+    assert_eq!(le16(b, 14), e.version_needed_to_extract);
+    assert_eq!(le32(b, 16), e.disk_number);
+    assert_eq!(le32(b, 20), e.disk_with_central_directory);
+    assert_eq!(le64(b, 24), e.number_of_files_on_this_disk);
+    assert_eq!(le64(b, 32), e.number_of_files);
+    assert_eq!(le64(b, 40), e.central_directory_size);
+    assert_eq!(le64(b, 48), e.central_directory_offset);
+    assert_eq!(le32(b, 56), SIG_LOC64);
+    assert_eq!(le32(b, 60), l.disk_with_central_directory);
+    assert_eq!(le64(b, 64), l.end_of_central_directory_offset);
+    assert_eq!(le32(b, 72), l.number_of_disks);
+    kani::cover!(e.central_directory_offset > 0xFFFF_FFFF);
+}
+
+/// C03 end record parse: a record built by the independent builder with arbitrary values and a
+/// 2-byte comment is decoded field by field; a wrong signature is an error.
+// @h prop=C03 tier=quick t=600 mem=6
+#[kani::proof]
+#[kani::unwind(6)]
+fn c03_eocd_parse() {
+    let mut b = [0u8; 32];
+    let cm: [u8; 2] = kani::any();
+    let (d, cd, nh, nt): (u16, u16, u16, u16) = (kani::any(), kani::any(), kani::any(), kani::any());
+    let (sz, off): (u32, u32) = (kani::any(), kani::any());
+    put_eocd(&mut b, 0, d, cd, nh, nt, sz, off, &cm);
+    let sig_ok: bool = kani::any();
+    if !sig_ok {
+        let s: u32 = kani::any();
+        kani::assume(s != SIG_EOCD);
+        put32(&mut b, 0, s);
+    }
+    let mut src = Src::<32>::new(b, 24);
+    match CentralDirectoryEnd::parse(&mut src) {
+        Ok(e) => {
+            assert!(sig_ok);
+            assert_eq!(e.disk_number, d);
+            assert_eq!(e.disk_with_central_directory, cd);
+            assert_eq!(e.number_of_files_on_this_disk, nh);
+            assert_eq!(e.number_of_files, nt);
+            assert_eq!(e.central_directory_size, sz);
+            assert_eq!(e.central_directory_offset, off);
+            assert_eq!(e.zip_file_comment.len(), 2);
+            assert_eq!(e.zip_file_comment[0], cm[0]);
+            assert_eq!(e.zip_file_comment[1], cm[1]);
+            assert_eq!(e.record_too_small(), d == 0xffff || cd == 0xffff || nh == 0xffff || nt == 0xffff || sz == 0xffff_ffff || off == 0xffff_ffff);
+            kani::cover!(true);
+            core::mem::forget(e);
+        }
+        Err(x) => {
+            core::mem::forget(x);
+            assert!(!sig_ok);
+            kani::cover!(true);
+        }
+    }
+}
+
+macro_rules! c05_find_eocd {
+    ($name:ident, $len:expr, $unwind:expr) => {
+        #[kani::proof]
+        #[kani::unwind($unwind)]
+        fn $name() {
+            const LEN: usize = $len;
+            let b: [u8; LEN] = kani::any();
+            let mut src = Src::<LEN>::new(b, LEN);
+            let r = CentralDirectoryEnd::find_and_parse(&mut src);
+            // reference: the last position p <= LEN-22 holding the signature
+            let mut last: i32 = -1;
+            let mut p = 0usize;
+            while p + 22 <= LEN {
+                if le32(&b, p) == SIG_EOCD {
+                    last = p as i32;
+                }
+                p += 1;
+            }
+            match r {
+                Ok((e, pos)) => {
+                    assert!(last >= 0);
+                    assert_eq!(pos, last as u64);
+                    // comment must fit inside the file
+                    assert!(pos as usize + 22 + e.zip_file_comment.len() <= LEN);
+                    assert_eq!(e.zip_file_comment.len(), le16(&b, pos as usize + 20) as usize);
+                    assert_eq!(e.central_directory_offset, le32(&b, pos as usize + 16));
+                    kani::cover!(pos as usize + 22 < LEN);
+                    kani::cover!(pos as usize + 22 == LEN);
+                    core::mem::forget(e);
+                }
+                Err(x) => {
+                    core::mem::forget(x);
+                    // error only if there is no signature at all, or the last record's comment
+                    // length overruns the file
+                    if last >= 0 {
+                        let cl = le16(&b, last as usize + 20) as usize;
+                        assert!(last as usize + 22 + cl > LEN);
+                    }
+                    kani::cover!(last < 0);
+                    kani::cover!(last >= 0);
+                }
+            }
+        }
+    };
+}
+/// C05/C03 backward end-record search over EVERY 24-byte input: terminates, never panics, and
+/// finds exactly the last position holding the end-record signature (trailing bytes after the
+/// record are tolerated); it fails only when no signature exists or the declared comment
+/// overruns the input.
+// @h prop=C05,C03 tier=quick t=900 mem=8 name=c05_find_eocd_24
+c05_find_eocd!(c05_find_eocd_24, 24, 8);
+/// C05 backward end-record search over every 28-byte input (7 candidate positions).
+// @h prop=C05,C03 tier=thorough t=1800 mem=12 name=c05_find_eocd_28
+c05_find_eocd!(c05_find_eocd_28, 28, 12);
+
+/// C05 inputs shorter than an end record are rejected with an error (no underflow).
+// @h prop=C05 tier=quick t=600 mem=6
+#[kani::proof]
+#[kani::unwind(4)]
+fn c05_find_eocd_too_short() {
+    let b: [u8; 21] = kani::any();
+    let n: usize = kani::any();
+    kani::assume(n <= 21);
+    let mut src = Src::<21>::new(b, n);
+    let r = CentralDirectoryEnd::find_and_parse(&mut src);
+    assert!(r.is_err());
+    kani::cover!(n == 0);
+    kani::cover!(n == 21);
+    core::mem::forget(r);
+}
+
+/// C08/C03 ZIP64 end record forward search: a record built by the independent builder at
+/// nominal offset + shift (shift 0..=2 bytes of prepended data, symbolic) is found, all 64-bit
+/// fields decoded exactly, and the returned archive offset equals the shift.
+// @h prop=C08,C03 tier=quick t=900 mem=10
+#[kani::proof]
+#[kani::unwind(12)]
+fn c08_eocd64_find_and_parse() {
+    const N: usize = 64;
+    let mut b = [0u8; N];
+    let shift: usize = kani::any();
+    kani::assume(shift <= 2);
+    let (mb, nd): (u16, u16) = (kani::any(), kani::any());
+    let (d, cd): (u32, u32) = (kani::any(), kani::any());
+    let (nh, nt, sz, off): (u64, u64, u64, u64) = (kani::any(), kani::any(), kani::any(), kani::any());
+    // prepended bytes must not fake a signature start
+    let j: [u8; 2] = kani::any();
+    kani::assume(j[0] != 0x50 && j[1] != 0x50);
+    b[0] = j[0];
+    b[1] = j[1];
+    let nominal: u64 = 0;
+    if shift == 0 {
+        put_eocd64(&mut b, 0, mb, nd, d, cd, nh, nt, sz, off);
+    } else if shift == 1 {
+        put_eocd64(&mut b, 1, mb, nd, d, cd, nh, nt, sz, off);
+    } else {
+        put_eocd64(&mut b, 2, mb, nd, d, cd, nh, nt, sz, off);
+    }
+    let mut src = Src::<N>::new(b, N);
+    match Zip64CentralDirectoryEnd::find_and_parse(&mut src, nominal, 4) {
+        Ok((e, ao)) => {
+            assert_eq!(ao, shift as u64);
+            assert_eq!(e.version_made_by, mb);
+            assert_eq!(e.version_needed_to_extract, nd);
+            assert_eq!(e.disk_number, d);
+            assert_eq!(e.disk_with_central_directory, cd);
+            assert_eq!(e.number_of_files_on_this_disk, nh);
+            assert_eq!(e.number_of_files, nt);
+            assert_eq!(e.central_directory_size, sz);
+            assert_eq!(e.central_directory_offset, off);
+            kani::cover!(shift == 2);
+            kani::cover!(shift == 0 && off > 0xFFFF_FFFF);
+        }
+        Err(x) => {
+            core::mem::forget(x);
+            assert!(false, "ZIP64 end record not found");
+        }
+    }
+}
+
+/// C05 ZIP64 end record search over arbitrary bytes with arbitrary (nominal, upper bound)
+/// where the window is at most 4 positions: terminates, no overflow/panic; a hit implies the
+/// signature is at nominal + returned offset.
+// @h prop=C05 tier=quick t=900 mem=10
+#[kani::proof]
+#[kani::unwind(10)]
+fn c05_eocd64_search_arbitrary() {
+    const N: usize = 64;
+    let b: [u8; N] = kani::any();
+    let nominal: u64 = kani::any();
+    let upper: u64 = kani::any();
+    kani::assume(upper < u64::MAX); // pos += 1 at u64::MAX is unreachable for real files (length < 2^63)
+    kani::assume(upper < nominal || upper - nominal <= 4);
+    let mut src = Src::<N>::new(b, N);
+    match Zip64CentralDirectoryEnd::find_and_parse(&mut src, nominal, upper) {
+        Ok((_e, ao)) => {
+            let p = nominal + ao;
+            assert!(p <= upper);
+            assert!(p as usize + 56 <= N);
+            assert_eq!(le32(&b, p as usize), SIG_EOCD64);
+            kani::cover!(ao == 3);
+        }
+        Err(x) => {
+            core::mem::forget(x);
+            kani::cover!(upper < nominal);
+            kani::cover!(upper >= nominal);
+        }
+    }
+}
+
+/// C03/C08 ZIP64 locator parse: every field value; wrong signature -> InvalidArchive (which the
+/// opener treats as "no ZIP64").
+// @h prop=C08,C03 tier=quick t=600 mem=6
+#[kani::proof]
+#[kani::unwind(10)]
+fn c08_locator_parse() {
+    let mut b = [0u8; 20];
+    let (d, n): (u32, u32) = (kani::any(), kani::any());
+    let o: u64 = kani::any();
+    put_loc64(&mut b, 0, d, o, n);
+    let sig_ok: bool = kani::any();
+    if !sig_ok {
+        let s: u32 = kani::any();
+        kani::assume(s != SIG_LOC64);
+        put32(&mut b, 0, s);
+    }
+    let mut src = Src::<20>::new(b, 20);
+    match Zip64CentralDirectoryEndLocator::parse(&mut src) {
+        Ok(l) => {
+            assert!(sig_ok);
+            assert_eq!(l.disk_with_central_directory, d);
+            assert_eq!(l.end_of_central_directory_offset, o);
+            assert_eq!(l.number_of_disks, n);
+            kani::cover!(true);
+        }
+        Err(ZipError::InvalidArchive(_)) => {
+            assert!(!sig_ok);
+            kani::cover!(true);
+        }
+        Err(x) => {
+            core::mem::forget(x);
+            assert!(false, "unexpected error kind");
+        }
+    }
+}
